@@ -947,8 +947,9 @@ sexp sexp_verif_restore_stack (sexp ctx, sexp saved) {
 #define _WORD2 ((sexp*)ip)[2]
 
 #define sexp_raise(msg, args)                                       \
-  do {sexp_context_top(ctx) = top+1;                                \
+  do {sexp_context_top(ctx) = top;                                  \
       stack[top] = args;                                            \
+      sexp_context_top(ctx) = top+1;                                \
       stack[top] = sexp_user_exception(ctx, self, msg, stack[top]); \
       top++;                                                        \
       goto call_error_handler;}                                     \
